@@ -715,9 +715,11 @@ func (p *parser) unary() (ast.Node, error) {
 
 	var res ast.Node
 
-	// special case for max negative long
+	// special case for max negative long: a minus sign directly in front of an integer literal belongs to the
+	// literal -- unless the literal is the receiver of a member access, which binds tighter than the unary minus
+	// (`-1.isEmpty()` is `-(1.isEmpty())`)
 	tok := p.peek()
-	if len(ops) > 0 && ops[len(ops)-1] && tok.isInt() {
+	if len(ops) > 0 && ops[len(ops)-1] && tok.isInt() && !p.accessFollows() {
 		p.advance()
 		i, err := strconv.ParseInt("-"+tok.Text, 10, 64)
 		if err != nil {
@@ -741,6 +743,15 @@ func (p *parser) unary() (ast.Node, error) {
 		}
 	}
 	return res, nil
+}
+
+// accessFollows reports whether the token after the current one starts a member access.
+func (p *parser) accessFollows() bool {
+	if p.pos+1 >= len(p.tokens) {
+		return false
+	}
+	next := p.tokens[p.pos+1].Text
+	return next == "." || next == "["
 }
 
 func (p *parser) member() (ast.Node, error) {
